@@ -37,11 +37,13 @@ def _drive(args):
             fins.append(h[0])
     fobj = None
     path = None
+    wronly = onfile and tid % 3 == 2 and tid % 4 == 1          # a real file opened write-only ('wb')
     if onfile:
         path = os.path.join(wd, 'real-%d-%d.bin' % (os.getpid(), tid))
-        fobj = open(path, 'w+b')
+        fobj = open(path, 'wb' if wronly else 'w+b')
     try:
-        events, data = drv.vbs_write_events(recs, blk, tuple(fins), 'class2' if tid % 3 == 2 else 'class', fobj)
+        events, data = drv.vbs_write_events(recs, blk, tuple(fins), 'class2' if tid % 3 == 2 else 'class', fobj,
+                                            peek=9 if tid % 6 == 2 else 0)
     except BaseException as ex:  # noqa
         events = [drv.ev('write', len(x), '', x) for x in recs] + [drv.ev('fin', 1), drv.ev('file', 0, '', b'\xff')]
         events[-1]['_observed'] = drv.exc_outcome(ex)
@@ -55,7 +57,8 @@ def _drive(args):
             '_desc': '%s writer on %s: write %s then %s%s' % ('blocked' if blk else 'unblocked',
                                                              'real file' if onfile else 'BytesIO',
                                                              [len(x) for x in recs], fins,
-                                                             ' (each exit a separate with-block)' if tid % 3 == 2 else ''),
+                                                             (' (each exit a separate with-block%s%s)' % (', the file is read between finalisations' if tid % 6 == 2 else '',
+                                                                                              ', file opened write-only' if wronly else '')) if tid % 3 == 2 else ''),
             '_fins': fins}
 
 
